@@ -93,8 +93,10 @@ Definition caught (e : exc) (hs : list (list exc)) : bool :=
 Definition raises (c : string) : option (list exc) :=
   let pure := Some [] in
   match c with
-  | "open" => Some [EOSError]
-  | "json.load" => Some [EJSONDecode; EUnicodeDecode]
+  | "open(file_path)" => Some [EOSError]
+  | "json.load(file_to_be_checked)" => Some [EJSONDecode; EUnicodeDecode]
+  (* the tool's own schema file, shipped with the package *)
+  | "open(JSON_SCHEMA_FILE)" | "json.load(json_file)" => pure
   | "jsonschema.validate" => Some [EValidation]
   | "etree.parse" => Some [EXMLSyntax]
   | "etree.XMLSchema" | "etree.XMLParser" => pure
@@ -106,8 +108,11 @@ Definition raises (c : string) : option (list exc) :=
   | "reader.reader.get_related_parts_by_type" => Some [EXMLSyntax]
   | "reader.reader.get_content_type" | "reader.reader.open_part" => Some [EKeyError]
   | "checker.check_object_store" => Some [ENotImplemented]
-  | "files.get_sha256" | "obj.get_referable" | "obj2.get_referable"
-  | "example_data.get_identifiable" | "obj_store.get_identifiable" => Some [EKeyError]
+  | "files.get_sha256(obj.value)" => Some [EKeyError]
+  (* reached only after AASDataChecker found the store equal to the example data, whose submodel holds
+     ExampleSubmodelCollection/ExampleFile, and after get_sha256 of the same value succeeded *)
+  | "files.get_sha256(obj2.value)" | "obj.get_referable" | "obj2.get_referable"
+  | "example_data.get_identifiable" | "obj_store.get_identifiable" => pure
   | "<assert>" => Some [EAssertion]
   | "<subscript 0>" => Some [EIndexError]
   | "<raise ValueError>" => Some [EValueError]
